@@ -258,7 +258,29 @@ Proof. intros l. Z.div_mod_to_equations. lia. Qed.
 Lemma field_min : forall l, l mod 86400 mod 3600 / 60 = l mod 3600 / 60.
 Proof. intros l. Z.div_mod_to_equations. lia. Qed.
 
+(* folding lemmas (kept tiny so that no large conversion is ever needed) *)
+Lemma month_index_eq : forall z y mo d, civil_from_days z = (y, mo, d) -> month_index z = 12 * y + (mo - 1).
+Proof. intros z y mo d E. unfold month_index. rewrite E. reflexivity. Qed.
+
+Lemma year_of_eq : forall z y mo d, civil_from_days z = (y, mo, d) -> year_of z = y.
+Proof. intros z y mo d E. unfold year_of. rewrite E. reflexivity. Qed.
+
+Lemma month_start_fold : forall k, days_from_civil (k / 12) (k mod 12 + 1) 1 = month_start k.
+Proof. reflexivity. Qed.
+
+Lemma jan1_fold : forall y, days_from_civil y 1 1 = jan1 y.
+Proof. reflexivity. Qed.
+
+Lemma ordinal0_jan1 : forall z, ordinal0 z = z - jan1 (year_of z).
+Proof. intros z. unfold ordinal0, jan1. reflexivity. Qed.
+
 (* ---------- the main lemma, unit by unit ---------- *)
+
+Lemma wrap_u32_small : forall v, 0 <= v < 4294967296 -> wrap_u32 v = v.
+Proof. intros v H. unfold wrap_u32. apply Z.mod_small. lia. Qed.
+
+Lemma wrap_i32_small : forall v, -2147483648 <= v < 2147483648 -> wrap_i32 v = v.
+Proof. intros v H. unfold wrap_i32. rewrite Z.mod_small by lia. lia. Qed.
 
 Section Exact.
 Variables (K : Z) (z : zone) (now : Z).
@@ -367,7 +389,7 @@ Proof.
   apply increment_ok in Hi; [|lia|apply ordinal0_nonneg].
   apply duration_ok in Hdu. apply dt_add_ok in H. subst t dur inc.
   unfold spec_next. cbv zeta. destruct m; [|lia].
-  unfold ordinal0. fold (jan1 (year_of (l / 86400))).
+  rewrite ordinal0_jan1.
   pose proof (mod_align (l / 86400 - jan1 (year_of (l / 86400))) n ltac:(lia)).
   lia.
 Qed.
@@ -398,12 +420,6 @@ Proof.
   lia.
 Qed.
 
-Lemma wrap_u32_small : forall v, 0 <= v < 4294967296 -> wrap_u32 v = v.
-Proof. intros v H. unfold wrap_u32. apply Z.mod_small. lia. Qed.
-
-Lemma wrap_i32_small : forall v, -2147483648 <= v < 2147483648 -> wrap_i32 v = v.
-Proof. intros v H. unfold wrap_i32. rewrite Z.mod_small by lia. lia. Qed.
-
 Lemma exact_month : forall n m t, n_ok UMonth n l ->
   core_hyp z now UMonth n m -> get_next_time z now UMonth n m = Ok t ->
   t = spec_next UMonth n m l - off.
@@ -412,11 +428,11 @@ Proof.
   unfold resolve_point in Hc.
   unfold spec_next in Hc |- *. cbv zeta in Hc |- *.
   pose proof (year_range l Hl) as Hy. unfold max_year in Hy.
-  unfold month_index in Hc |- *. unfold year_of in Hy.
   unfold get_next_time in H. fold off in H. cbv zeta in H. fold l in H.
   destruct (civil_from_days (l / 86400)) as [[y mo] d] eqn:Ec.
   destruct (civil_from_days_spec _ _ _ _ Ec) as (_ & Hmo & _).
-  cbn [fst] in Hy.
+  rewrite (year_of_eq _ _ _ _ Ec) in Hy.
+  rewrite (month_index_eq _ _ _ _ Ec) in Hc |- *.
   rewrite (wrap_u32_small n) in H by lia.
   rewrite (wrap_u32_small y) in H by lia.
   inv_bind H inc Hi. inv_bind H y12 Hy12. inv_bind H nm Hnm. inv_bind H nmn Hnmn.
@@ -429,16 +445,16 @@ Proof.
   clear Hi.
   rewrite wrap_i32_small in H by (Z.div_mod_to_equations; lia).
   apply with_ymd_inv in H. destruct H as (o' & Hr & -> & _).
-  fold (month_start (y * 12 + (mo - 1) + inc)) in Hr |- *.
+  rewrite month_start_fold in Hr |- *.
   assert (Ek : (if m then (12 * y + (mo - 1)) / 12 * 12 + ((12 * y + (mo - 1)) mod 12 / n + 1) * n
                 else 12 * y + (mo - 1) + n) = y * 12 + (mo - 1) + inc).
   { subst inc. destruct m; [|lia].
     replace ((12 * y + (mo - 1)) / 12) with y by (Z.div_mod_to_equations; lia).
     replace ((12 * y + (mo - 1)) mod 12) with (mo - 1) by (Z.div_mod_to_equations; lia).
     pose proof (mod_align (mo - 1) n ltac:(lia)). lia. }
-  rewrite Ek in Hc |- *.
-  replace (month_start (y * 12 + (mo - 1) + inc) * 86400 + 0 * 3600 + 0 * 60 + 0)
-    with (month_start (y * 12 + (mo - 1) + inc) * 86400) in Hr |- * by lia.
+  rewrite Ek in Hc |- *. clear Ek.
+  generalize dependent (month_start (y * 12 + (mo - 1) + inc)). intros ms Hc Hr.
+  replace (ms * 86400 + 0 * 3600 + 0 * 60 + 0) with (ms * 86400) in Hr |- * by lia.
   apply (resolve_target _ o' Hc) in Hr. subst o'. reflexivity.
 Qed.
 
@@ -449,10 +465,9 @@ Proof.
   intros n m t (Hn & Hn32) Hc H. unfold core_hyp in Hc. cbv zeta in Hc. fold off in Hc. fold l in Hc.
   unfold resolve_point in Hc.
   unfold spec_next in Hc |- *. cbv zeta in Hc |- *.
-  unfold year_of in Hc |- *.
   unfold get_next_time in H. fold off in H. cbv zeta in H. fold l in H.
   destruct (civil_from_days (l / 86400)) as [[y mo] d] eqn:Ec.
-  cbn [fst] in Hc |- *.
+  rewrite (year_of_eq _ _ _ _ Ec) in Hc |- *.
   rewrite (wrap_i32_small n) in H by lia.
   inv_bind H inc Hi. inv_bind H yn Hyn.
   apply chk_i32_ok in Hyn. destruct Hyn as [-> _].
@@ -464,9 +479,9 @@ Proof.
     - injection Hi as <-. reflexivity. }
   clear Hi.
   apply with_ymd_inv in H. destruct H as (o' & Hr & -> & _).
-  fold (jan1 (y + inc)) in Hr |- *. rewrite Hinc in Hr |- *.
-  replace (jan1 (if m then (Z.quot y n + 1) * n else y + n) * 86400 + 0 * 3600 + 0 * 60 + 0)
-    with (jan1 (if m then (Z.quot y n + 1) * n else y + n) * 86400) in Hr |- * by lia.
+  rewrite jan1_fold in Hr |- *. rewrite Hinc in Hr |- *.
+  generalize dependent (jan1 (if m then (Z.quot y n + 1) * n else y + n)). intros j Hc Hr.
+  replace (j * 86400 + 0 * 3600 + 0 * 60 + 0) with (j * 86400) in Hr |- * by lia.
   apply (resolve_target _ o' Hc) in Hr. subst o'. reflexivity.
 Qed.
 
@@ -485,3 +500,362 @@ Proof.
 Qed.
 
 End Exact.
+
+(* ---------- headline consequences ---------- *)
+
+(* the natural reading of "the offset does not change in between": constant from
+   the start of the current unit (read under the current offset) to the later of
+   now and the expected boundary *)
+Definition natural_hyp (z : zone) (now : Z) (u : tunit) (n : Z) (modulate : bool) : Prop :=
+  let off := offset_at z now in
+  let l := now + off in
+  const_on z off (unit_start u l - off) (Z.max now (spec_next u n modulate l - off)).
+
+Lemma resolve_point_bounds : forall u n m l, 1 <= n ->
+  unit_start u l <= resolve_point u n m l /\
+  (resolve_point u n m l <= l \/ resolve_point u n m l = spec_next u n m l).
+Proof.
+  intros u n m l Hn.
+  pose proof (unit_start_le u l) as Hle.
+  pose proof (spec_next_after u n m l Hn) as Hlt.
+  destruct u.
+  - unfold resolve_point. split; [lia|left; exact Hle].
+  - unfold resolve_point. split; [lia|left; exact Hle].
+  - unfold resolve_point. split; [lia|left; exact Hle].
+  - unfold resolve_point. split; [lia|left; exact Hle].
+  - unfold resolve_point, unit_start. cbv zeta.
+    pose proof (weekday_bounds (l / 86400)).
+    split; [lia|left; Z.div_mod_to_equations; lia].
+  - unfold resolve_point. split; [lia|right; reflexivity].
+  - unfold resolve_point. split; [lia|right; reflexivity].
+Qed.
+
+Lemma natural_hyp_core : forall z now u n m, 1 <= n ->
+  natural_hyp z now u n m -> core_hyp z now u n m.
+Proof.
+  intros z now u n m Hn H. unfold natural_hyp, core_hyp in *. cbv zeta in *.
+  pose proof (unit_start_le u (now + offset_at z now)) as Hle.
+  pose proof (spec_next_after u n m (now + offset_at z now) Hn) as Hlt.
+  pose proof (resolve_point_bounds u n m (now + offset_at z now) Hn) as [Hlo Hhi].
+  intros x Hx. apply H. lia.
+Qed.
+
+Theorem next_strictly_after : forall K z now u n m t,
+  sane K z = true -> n_ok u n (now + offset_at z now) -> core_hyp z now u n m ->
+  get_next_time z now u n m = Ok t -> now < t.
+Proof.
+  intros K z now u n m t Hs Hn Hc H.
+  rewrite (schedule_exact_core K z now Hs u n m t Hn Hc H).
+  pose proof (spec_next_after u n m (now + offset_at z now) ltac:(destruct Hn; assumption)). lia.
+Qed.
+
+Theorem boundary_aligned : forall K z now u n m t,
+  sane K z = true -> n_ok u n (now + offset_at z now) -> core_hyp z now u n m ->
+  get_next_time z now u n m = Ok t ->
+  offset_at z t = offset_at z now ->
+  local z t = spec_next u n m (local z now).
+Proof.
+  intros K z now u n m t Hs Hn Hc H Ho. unfold local. rewrite Ho.
+  rewrite (schedule_exact_core K z now Hs u n m t Hn Hc H). lia.
+Qed.
+
+Theorem boundary_aligned_natural : forall K z now u n m t,
+  sane K z = true -> n_ok u n (now + offset_at z now) -> natural_hyp z now u n m ->
+  get_next_time z now u n m = Ok t ->
+  now < t /\ local z t = spec_next u n m (local z now).
+Proof.
+  intros K z now u n m t Hs Hn Hnat H.
+  assert (H1 : 1 <= n) by (destruct Hn; assumption).
+  pose proof (natural_hyp_core z now u n m H1 Hnat) as Hc.
+  pose proof (schedule_exact_core K z now Hs u n m t Hn Hc H) as Et.
+  split; [apply (next_strictly_after K z now u n m t Hs Hn Hc H)|].
+  apply (boundary_aligned K z now u n m t Hs Hn Hc H).
+  unfold natural_hyp in Hnat. cbv zeta in Hnat. apply Hnat.
+  pose proof (unit_start_le u (now + offset_at z now)).
+  pose proof (spec_next_after u n m (now + offset_at z now) H1). lia.
+Qed.
+
+(* ---------- the scheduled local time starts a unit ---------- *)
+
+Lemma month_index_unique : forall k z, month_start k <= z < month_start (k + 1) -> month_index z = k.
+Proof.
+  intros k z H. pose proof (month_index_bounds z) as B.
+  destruct (Z_lt_ge_dec (month_index z) k).
+  - pose proof (month_start_mono_le (month_index z + 1) k ltac:(lia)). lia.
+  - destruct (Z_lt_ge_dec k (month_index z)); [|lia].
+    pose proof (month_start_mono_le (k + 1) (month_index z) ltac:(lia)). lia.
+Qed.
+
+Lemma spec_next_on_boundary : forall u n m l,
+  unit_start u (spec_next u n m l) = spec_next u n m l.
+Proof.
+  intros u n m l. destruct u; unfold spec_next, unit_start; cbv zeta.
+  - reflexivity.
+  - destruct m.
+    + generalize ((l mod 3600 / 60 / n + 1) * n). intros q. Z.div_mod_to_equations. lia.
+    + Z.div_mod_to_equations. lia.
+  - destruct m.
+    + generalize ((l mod 86400 / 3600 / n + 1) * n). intros q. Z.div_mod_to_equations. lia.
+    + Z.div_mod_to_equations. lia.
+  - destruct m; rewrite Z.div_mul by lia; reflexivity.
+  - destruct m; rewrite Z.div_mul by lia.
+    + pose proof (iso_year_start_monday (iso_year (l / 86400))) as Hm.
+      generalize dependent (iso_year_start (iso_year (l / 86400))). intros ys Hm.
+      generalize (((l / 86400 - weekday_mon (l / 86400) - ys) / 7 / n + 1) * n). intros q.
+      unfold weekday_mon in *. f_equal. Z.div_mod_to_equations. lia.
+    + unfold weekday_mon. f_equal. Z.div_mod_to_equations. lia.
+  - rewrite Z.div_mul by lia.
+    rewrite (month_index_unique (if m then month_index (l / 86400) / 12 * 12 + (month_index (l / 86400) mod 12 / n + 1) * n
+                                  else month_index (l / 86400) + n)); [reflexivity|].
+    pose proof (month_start_step (if m then month_index (l / 86400) / 12 * 12 + (month_index (l / 86400) mod 12 / n + 1) * n
+                                  else month_index (l / 86400) + n)). lia.
+  - rewrite Z.div_mul by lia.
+    rewrite (year_of_unique (if m then (Z.quot (year_of (l / 86400)) n + 1) * n else year_of (l / 86400) + n)); [reflexivity|].
+    pose proof (jan1_mono (if m then (Z.quot (year_of (l / 86400)) n + 1) * n else year_of (l / 86400) + n)
+                          ((if m then (Z.quot (year_of (l / 86400)) n + 1) * n else year_of (l / 86400) + n) + 1)
+                          ltac:(lia)). lia.
+Qed.
+
+(* ---------- fires once, then the schedule is in the future ---------- *)
+
+Theorem fires_once_then_future : forall K z c next now ns r nx,
+  sane K z = true -> 0 <= ns ->
+  n_ok (c_unit c) (c_n c) (now + offset_at z now) ->
+  core_hyp z now (c_unit c) (c_n c) (c_mod c) ->
+  0 <= r < Z.max (c_maxd c) 1 -> c_maxd c <= 18446744073709551615 -> r < 9223372036854775808 ->
+  trigger_step z c next now ns r = Ok (true, nx) ->
+  next <= now /\
+  nx = spec_next (c_unit c) (c_n c) (c_mod c) (now + offset_at z now) - offset_at z now + r /\
+  now < nx /\
+  (forall now' ns' r', now' < nx -> 0 <= ns' -> trigger_step z c nx now' ns' r' = Ok (false, nx)).
+Proof.
+  intros K z c next now ns r nx Hs Hns Hn Hc Hr Hmax Hr63 H.
+  destruct (trigger_fires_iff _ _ _ _ _ _ _ _ Hns H) as (Hf & Hnew & _).
+  specialize (Hnew eq_refl).
+  destruct (trigger_new_delay _ _ _ _ _ Hr Hmax Hr63 Hnew) as (base & Hb & -> & _ & _).
+  pose proof (schedule_exact_core K z now Hs _ _ _ _ Hn Hc Hb) as Eb.
+  pose proof (next_strictly_after K z now _ _ _ _ Hs Hn Hc Hb).
+  split; [apply Hf; reflexivity|]. split; [lia|]. split; [lia|].
+  intros now' ns' r' Hlt Hns'. apply trigger_not_due; assumption.
+Qed.
+
+(* ---------- no panic in a fixed-offset zone, interval in range ---------- *)
+
+Definition in_range (u : tunit) (n l : Z) : Prop :=
+  1 <= n /\ 0 <= l /\
+  match u with
+  | UYear => year_of (l / 86400) + n <= max_year
+  | UMonth => l <= max_utc /\ month_index (l / 86400) + n <= 12 * max_year + 11
+  | _ => l + n * unit_secs u + 2 * 86400 <= max_utc
+  end.
+
+Lemma with_ymd_fixed : forall z y m d h mi s, z_trans z = [] -> min_year <= y <= max_year ->
+  with_ymd_and_hms z y m d h mi s = Ok (days_from_civil y m d * 86400 + h * 3600 + mi * 60 + s - z_init z).
+Proof.
+  intros z y m d h mi s Hz Hy. unfold with_ymd_and_hms.
+  replace ((min_year <=? y) && (y <=? max_year)) with true
+    by (symmetry; apply andb_true_intro; split; apply Z.leb_le; lia).
+  cbv zeta. rewrite resolve_local_fixed by exact Hz. reflexivity.
+Qed.
+
+Lemma increment_fwd : forall m n x, 1 <= n -> 0 <= x ->
+  increment m n x = Ok (if m then n - x mod n else n).
+Proof.
+  intros m n x Hn Hx. unfold increment. destruct m; [|reflexivity].
+  replace (n =? 0) with false by (symmetry; apply Z.eqb_neq; lia).
+  rewrite Z.rem_mod_nonneg by lia. reflexivity.
+Qed.
+
+Lemma inc_bounds : forall (m : bool) n x, 1 <= n -> 1 <= (if m then n - x mod n else n) <= n.
+Proof. intros m n x Hn. destruct m; [|lia]. pose proof (Z.mod_pos_bound x n ltac:(lia)). lia. Qed.
+
+Lemma duration_fwd : forall per n, - max_dur <= n * per <= max_dur -> duration per n = Ok (n * per).
+Proof.
+  intros per n H. unfold duration. cbv zeta.
+  replace ((- max_dur <=? n * per) && (n * per <=? max_dur)) with true
+    by (symmetry; apply andb_true_intro; split; apply Z.leb_le; lia).
+  reflexivity.
+Qed.
+
+Lemma dt_add_fwd : forall a d, min_utc <= a + d <= max_utc -> dt_add a d = Ok (a + d).
+Proof.
+  intros a d H. unfold dt_add. cbv zeta.
+  replace ((min_utc <=? a + d) && (a + d <=? max_utc)) with true
+    by (symmetry; apply andb_true_intro; split; apply Z.leb_le; lia).
+  reflexivity.
+Qed.
+
+Lemma chk_u32_fwd : forall v, 0 <= v <= 4294967295 -> chk_u32 v = Ok v.
+Proof.
+  intros v H. unfold chk_u32.
+  replace ((0 <=? v) && (v <=? 4294967295)) with true
+    by (symmetry; apply andb_true_intro; split; apply Z.leb_le; lia).
+  reflexivity.
+Qed.
+
+Lemma chk_i32_fwd : forall v, -2147483648 <= v <= 2147483647 -> chk_i32 v = Ok v.
+Proof.
+  intros v H. unfold chk_i32.
+  replace ((-2147483648 <=? v) && (v <=? 2147483647)) with true
+    by (symmetry; apply andb_true_intro; split; apply Z.leb_le; lia).
+  reflexivity.
+Qed.
+
+Theorem no_panic_fixed_offset : forall z now u n m,
+  z_trans z = [] -> -86400 <= z_init z <= 86400 ->
+  in_range u n (now + z_init z) ->
+  exists t, get_next_time z now u n m = Ok t.
+Proof.
+  intros z now u n m Hz Hi (Hn & Hl0 & Hr).
+  unfold get_next_time. rewrite (offset_at_fixed z now Hz). cbv zeta.
+  set (l := now + z_init z) in *.
+  assert (Hmax : match u with UYear => True | _ => l <= max_utc end).
+  { destruct u; unfold unit_secs, max_utc in *; try exact I; lia. }
+  destruct (civil_from_days (l / 86400)) as [[y mo] d] eqn:Ec.
+  destruct (civil_from_days_spec _ _ _ _ Ec) as (Hd & Hmo & _).
+  pose proof (year_of_eq _ _ _ _ Ec) as Ey.
+  pose proof (month_index_eq _ _ _ _ Ec) as Ek.
+  assert (Hy70 : 1970 <= y).
+  { rewrite <- Ey. apply year_of_ge. rewrite jan1_1970. apply Z.div_pos; lia. }
+  assert (HyM : match u with UYear => True | _ => y <= max_year end).
+  { destruct u; try exact I; rewrite <- Ey; apply (year_range l); lia. }
+  assert (Hday : l / 86400 * 86400 <= l < l / 86400 * 86400 + 86400)
+    by (Z.div_mod_to_equations; lia).
+  unfold min_year, max_year, max_utc, min_utc, max_dur in *.
+  destruct u; unfold unit_secs in Hr.
+  - (* second *)
+    rewrite with_ymd_fixed by (unfold min_year, max_year; auto; lia). cbn [bind].
+    rewrite Hd, trunc_sec. rewrite field_sec.
+    rewrite increment_fwd by (try lia; apply Z.mod_pos_bound; lia). cbn [bind].
+    pose proof (inc_bounds m n (l mod 60) Hn).
+    rewrite duration_fwd by (unfold max_dur; lia). cbn [bind].
+    rewrite dt_add_fwd by (unfold min_utc, max_utc; lia). eexists; reflexivity.
+  - rewrite with_ymd_fixed by (unfold min_year, max_year; auto; lia). cbn [bind].
+    rewrite Hd, trunc_min. rewrite field_min.
+    assert (l / 60 * 60 <= l < l / 60 * 60 + 60) by (Z.div_mod_to_equations; lia).
+    rewrite increment_fwd by (try lia; Z.div_mod_to_equations; lia). cbn [bind].
+    pose proof (inc_bounds m n (l mod 3600 / 60) Hn).
+    rewrite duration_fwd by (unfold max_dur; lia). cbn [bind].
+    rewrite dt_add_fwd by (unfold min_utc, max_utc; lia). eexists; reflexivity.
+  - rewrite with_ymd_fixed by (unfold min_year, max_year; auto; lia). cbn [bind].
+    rewrite Hd, trunc_hour.
+    assert (l / 3600 * 3600 <= l < l / 3600 * 3600 + 3600) by (Z.div_mod_to_equations; lia).
+    rewrite increment_fwd by (try lia; Z.div_mod_to_equations; lia). cbn [bind].
+    pose proof (inc_bounds m n (l mod 86400 / 3600) Hn).
+    rewrite duration_fwd by (unfold max_dur; lia). cbn [bind].
+    rewrite dt_add_fwd by (unfold min_utc, max_utc; lia). eexists; reflexivity.
+  - rewrite with_ymd_fixed by (unfold min_year, max_year; auto; lia). cbn [bind].
+    rewrite Hd, trunc_day.
+    rewrite increment_fwd by (try lia; apply ordinal0_nonneg). cbn [bind].
+    pose proof (inc_bounds m n (ordinal0 (l / 86400)) Hn).
+    rewrite duration_fwd by (unfold max_dur; lia). cbn [bind].
+    rewrite dt_add_fwd by (unfold min_utc, max_utc; lia). eexists; reflexivity.
+  - rewrite with_ymd_fixed by (unfold min_year, max_year; auto; lia). cbn [bind].
+    rewrite Hd, trunc_day.
+    destruct (iso_week0_spec (l / 86400)) as (_ & Hw & _).
+    pose proof (weekday_bounds (l / 86400)) as Hwd.
+    rewrite increment_fwd by lia. cbn [bind].
+    pose proof (inc_bounds m n (iso_week0 (l / 86400)) Hn).
+    rewrite duration_fwd by (unfold max_dur; lia). cbn [bind].
+    rewrite dt_add_fwd by (unfold min_utc, max_utc; lia). cbn [bind].
+    rewrite duration_fwd by (unfold max_dur; lia). cbn [bind].
+    rewrite dt_add_fwd by (unfold min_utc, max_utc; lia). eexists; reflexivity.
+  - (* month *)
+    destruct Hr as [_ Hr]. rewrite Ek in Hr.
+    rewrite (wrap_u32_small n) by lia. rewrite (wrap_u32_small y) by lia.
+    pose proof (inc_bounds m n (mo - 1) Hn) as Hib.
+    assert (Einc : (if m then if n =? 0 then Panic 1 else Ok (n - (mo - 1) mod n) else Ok n)
+                   = Ok (if m then n - (mo - 1) mod n else n)).
+    { destruct m; [|reflexivity]. replace (n =? 0) with false by (symmetry; apply Z.eqb_neq; lia). reflexivity. }
+    rewrite Einc. cbn [bind].
+    rewrite chk_u32_fwd by lia. cbn [bind].
+    rewrite chk_u32_fwd by lia. cbn [bind].
+    rewrite chk_u32_fwd by lia. cbn [bind].
+    rewrite wrap_i32_small by (Z.div_mod_to_equations; lia).
+    rewrite with_ymd_fixed by (try assumption; unfold min_year, max_year; Z.div_mod_to_equations; lia).
+    eexists; reflexivity.
+  - (* year *)
+    rewrite Ey in Hr.
+    rewrite (wrap_i32_small n) by lia.
+    assert (Einc : (if m then if n =? 0 then Panic 1 else chk_i32 (n - Z.rem y n) else Ok n)
+                   = Ok (if m then n - y mod n else n)).
+    { destruct m; [|reflexivity]. replace (n =? 0) with false by (symmetry; apply Z.eqb_neq; lia).
+      rewrite Z.rem_mod_nonneg by lia. pose proof (Z.mod_pos_bound y n ltac:(lia)).
+      apply chk_i32_fwd. lia. }
+    rewrite Einc. cbn [bind].
+    pose proof (inc_bounds m n y Hn) as Hib.
+    rewrite chk_i32_fwd by lia. cbn [bind].
+    rewrite with_ymd_fixed by (try assumption; unfold min_year, max_year; lia).
+    eexists; reflexivity.
+Qed.
+
+(* ---------- decidable form of the zone class, fixed-offset instances ---------- *)
+
+Definition natural_ok_b (z : zone) (now : Z) (u : tunit) (n : Z) (modulate : bool) : bool :=
+  let off := offset_at z now in
+  let l := now + off in
+  let a := unit_start u l - off in
+  (offset_at z a =? off) && no_transition_in z a (Z.max now (spec_next u n modulate l - off)).
+
+Lemma natural_ok_b_sound : forall z now u n m,
+  natural_ok_b z now u n m = true -> natural_hyp z now u n m.
+Proof.
+  intros z now u n m H. unfold natural_ok_b in H. cbv zeta in H.
+  apply andb_prop in H. destruct H as [H1 H2]. apply Z.eqb_eq in H1.
+  unfold natural_hyp. cbv zeta. rewrite <- H1 at 1.
+  apply no_transition_const. exact H2.
+Qed.
+
+Lemma natural_hyp_fixed : forall z now u n m, z_trans z = [] -> natural_hyp z now u n m.
+Proof.
+  intros z now u n m Hz. unfold natural_hyp. cbv zeta. intros x _.
+  rewrite !offset_at_fixed by exact Hz. reflexivity.
+Qed.
+
+Lemma sane_fixed : forall z, z_trans z = [] -> sane (Z.abs (z_init z)) z = true.
+Proof.
+  intros z Hz. unfold sane. rewrite Hz. cbn [sane_from].
+  rewrite andb_true_r. apply andb_true_intro. split; apply Z.leb_le; lia.
+Qed.
+
+(* ---------- non-vacuity instances ---------- *)
+
+(* 2024-02-29 23:59:58 UTC: leap day, two seconds before the month end *)
+Lemma ex_leap_day_utc :
+  get_next_time utc0 1709251198 UDay 1 false = Ok 1709251200 /\     (* 2024-03-01 00:00:00 *)
+  get_next_time utc0 1709251198 UMonth 1 false = Ok 1709251200 /\
+  get_next_time utc0 1709251198 UYear 1 false = Ok 1735689600 /\    (* 2025-01-01 *)
+  get_next_time utc0 1709251198 UWeek 1 false = Ok 1709510400 /\    (* Monday 2024-03-04 *)
+  get_next_time utc0 1709251198 UWeek 4 true = Ok 1711324800 /\     (* ISO week 13: Monday 2024-03-25 *)
+  get_next_time utc0 1709251198 USecond 1 false = Ok 1709251199 /\
+  get_next_time utc0 1709251198 UMinute 7 true = Ok 1709251380 /\   (* 2024-03-01 00:03:00 = hour start + 63 min *)
+  sane 0 utc0 = true /\ n_ok UMonth 1 (1709251198 + offset_at utc0 1709251198) /\
+  n_ok UYear 1 (1709251198 + offset_at utc0 1709251198) /\
+  natural_hyp utc0 1709251198 UMonth 1 false /\
+  in_range UMonth 1 (1709251198 + z_init utc0) /\ in_range UYear 1 (1709251198 + z_init utc0) /\
+  in_range UDay 1 (1709251198 + z_init utc0).
+Proof.
+  repeat split; try (vm_compute; reflexivity); try (vm_compute; discriminate);
+    try (apply natural_hyp_fixed; reflexivity).
+Qed.
+
+(* Europe/Berlin, 2025-06-15 12:00:00 CEST (a DST zone, far from its transitions) *)
+Lemma ex_berlin_summer :
+  sane 7200 berlin2025 = true /\
+  natural_ok_b berlin2025 1749981600 UDay 1 false = true /\
+  natural_ok_b berlin2025 1749981600 UHour 3 true = true /\
+  natural_ok_b berlin2025 1749981600 UWeek 1 false = true /\
+  natural_ok_b berlin2025 1749981600 UMonth 1 false = true /\
+  get_next_time berlin2025 1749981600 UDay 1 false = Ok 1750024800 /\      (* 2025-06-16 00:00 CEST *)
+  get_next_time berlin2025 1749981600 UHour 3 true = Ok 1749992400 /\      (* 15:00 CEST *)
+  get_next_time berlin2025 1749981600 UWeek 1 false = Ok 1750024800 /\     (* Monday 2025-06-16 *)
+  get_next_time berlin2025 1749981600 UMonth 1 false = Ok 1751320800 /\    (* 2025-07-01 00:00 CEST *)
+  (* and the class predicate is false exactly where the findings live *)
+  natural_ok_b berlin2025 1761516600 UDay 1 false = false /\
+  natural_ok_b berlin2025 1761438600 UHour 1 false = false /\
+  (* second pass through the repeated hour (02:30 CET): the offset IS constant from
+     02:00 CET to 03:00 CET, yet chrono reports the truncated time as ambiguous and
+     the code panics: "no panic" cannot be extended from fixed-offset zones to this class *)
+  natural_ok_b berlin2025 1761442200 UHour 1 false = true /\
+  get_next_time berlin2025 1761442200 UHour 1 false = Panic 3.
+Proof. vm_compute. repeat split; reflexivity. Qed.
